@@ -13,6 +13,7 @@ import (
 	"io"
 	"math/rand"
 	"strings"
+	"testing/iotest"
 
 	"github.com/itchio/wharf/wsync"
 )
@@ -39,11 +40,28 @@ type c11Line struct {
 	Ops  []interface{} `json:"ops"`
 }
 
-func signFiles(bs int, olds [][]byte) []wsync.BlockHash {
+// signFiles signs the old files with the real CreateSignature. via chooses how the old files' bytes are DELIVERED -
+// all of it within the io.Reader contract: 0 one Read per call on a bytes.Reader; 1 one byte per Read and the last
+// byte together with io.EOF; 2 reads one byte short of a block, last bytes with io.EOF; 3 whole reads, last bytes
+// with io.EOF.
+func signFiles(bs int, olds [][]byte, via int) []wsync.BlockHash {
 	ctx := wsync.NewContext(bs)
 	var hashes []wsync.BlockHash
 	for fi, o := range olds {
-		err := ctx.CreateSignature(context.Background(), int64(fi), bytes.NewReader(o), func(h wsync.BlockHash) error {
+		var r io.Reader = bytes.NewReader(o)
+		switch via % 4 {
+		case 1:
+			r = iotest.DataErrReader(iotest.OneByteReader(r))
+		case 2:
+			n := bs - 1
+			if n < 1 {
+				n = 1
+			}
+			r = iotest.DataErrReader(&chunkReader{r: r, n: n})
+		case 3:
+			r = iotest.DataErrReader(r)
+		}
+		err := ctx.CreateSignature(context.Background(), int64(fi), r, func(h wsync.BlockHash) error {
 			hashes = append(hashes, h)
 			return nil
 		})
@@ -120,7 +138,9 @@ func cmdC11Enum(args []string) error {
 	}
 
 	idx := make([]int, *nold)
+	combo := 0
 	for {
+		combo++
 		olds := make([][]byte, *nold)
 		oldsJ := make([][]int, *nold)
 		for k := range idx {
@@ -129,7 +149,7 @@ func cmdC11Enum(args []string) error {
 		}
 		for _, bs := range parseInts(*bss) {
 			ctx := wsync.NewContext(bs)
-			lib := libraryOf(signFiles(bs, olds), true)
+			lib := libraryOf(signFiles(bs, olds, combo+bs), true)
 			for _, src := range newSeqs {
 				for _, pref := range prefList {
 					ops := realDiff(ctx, lib, bytes.NewReader(src), int64(pref-1))
@@ -380,7 +400,7 @@ func cmdC11Large(args []string) error {
 		rng := newRand(int64(1100 + k))
 		bs, olds, src, pref, desc := buildLargeCase(rng, k)
 		ctx := wsync.NewContext(bs)
-		lib := libraryOf(signFiles(bs, olds), k%2 == 0)
+		lib := libraryOf(signFiles(bs, olds, k/2), k%2 == 0)
 		chunk := 0
 		var rd io.Reader = bytes.NewReader(src)
 		if k%3 == 1 {
@@ -430,7 +450,6 @@ func cmdC11Large(args []string) error {
 	fmt.Printf("{\"lines\":%d}\n", w.n)
 	return w.close()
 }
-
 
 // libraryOf builds the block library the differ searches. The signature slice it was built from is then RECYCLED
 // by the "caller" (overwritten with records of another signing, as a caller with one scratch slice per run would
